@@ -54,6 +54,11 @@ func (exec *execCtx) processV2Last(lastID oid.ID) {
 		r.SetLength(exec.collectedHeader.PayloadSize())
 	}
 
+	if exec.collectedHeader != nil {
+		// the chain is walked back from the right end of the parent payload
+		exec.curOff = exec.collectedHeader.PayloadSize()
+	}
+
 	if ok := exec.writeCollectedHeader(); ok {
 		exec.overtakePayloadInReverse(lastID)
 	}
